@@ -268,3 +268,32 @@ class RecordRoundTrip:
     def claim_same_route_set(b4, b5, b6, b7, e):
         w = b4 + 256 * b5 + 65536 * b6 + 16777216 * b7
         return all((r in e.route) == (((w >> r) & 1) == 1) for r in range(24))
+
+
+# ---- load_routing_tables: one chip of the loop (fragment) -------------------------------------------------------------------
+from pyvc.values import ListV as _ListV10, NONE as _NONE10, TRec as _TRec10   # noqa: E402
+
+
+def _load_entries_ext(E, obj, args, kwargs, st, node):
+    """load_routing_table_entries(table, x=, y=, app_id=) (its own contract above): the call is recorded as given"""
+    s = st.copy()
+    s.trace = _ListV10(s.trace.items + (("load_entries",) + tuple(args) + tuple(sorted(kwargs.items())),))
+    return [(s, _NONE10, None)]
+
+
+@contract("rig/machine_control/machine_controller.py::MachineController.load_routing_tables@forbody:0")
+class LoadRoutingTablesStep:
+    """each chip's table is loaded onto THAT chip, for the application named in the call - the chip comes from the dictionary
+    key and is passed explicitly, so no enclosing context can redirect it"""
+    properties = ("C10",)
+    params = dict(self=_TRec10("MachineController"), x=TInt(0, 255), y=TInt(0, 255), table=TInt(), app_id=TInt(0, 255))
+    fragment_result = ()
+    fragment_head = "for (x, y), table in iteritems(routing_tables):"
+    externals = {"MachineController.load_routing_table_entries": _load_entries_ext}
+    assumptions = ["load_routing_table_entries is recorded here (its own contract); the table is an opaque identity"]
+
+    def native(x):
+        raise __import__("pyvc.replay", fromlist=["OutsideHarness"]).OutsideHarness()
+
+    def ensures_this_table_goes_to_this_chip_for_this_application(x, y, table, app_id, _trace):
+        return len(_trace) == 1 and _trace[0] == ("load_entries", table, ("app_id", app_id), ("x", x), ("y", y))
